@@ -46,3 +46,85 @@ Section PORTIONS.
   (* what the whole request should return after n portions: the traces of portions < n inside the window *)
   Definition U (n : N) : list tr := filter (fun t => N.ltb (part (tid t)) n && Z.leb from0 (tkey t)) all.
 End PORTIONS.
+
+(* ================================================================ a recorded run of the REAL loop (harness/cmd/tqloop)
+   The harness drives ComplexRequestProcessor.Process over a scripted database/sql back-end and records, per statement the loop
+   sent: the portion filter (Max, I), the cached ids, the lower bound of the window (all read off the SQL text), and the rows the
+   back-end answered (its own choice of a top-`limit` selection, ties broken at random).  run_model replays the record against the
+   model: the statement parameters must be the model's (i, map tid S, from), the answer must be a legitimate one (a top-k selection
+   of the rows visible to that statement, newest first); then the state moves on by next_from.  RunOk = every check passed. *)
+Record step := { st_max : N; st_i : N; st_cached : list N; st_from : Z; st_rows : list N }.
+Inductive run_result :=
+ | RunOk (n : N) (W : list tr) (from : Z)
+ | RunBad (at_step : N) (code : Z) (expected got : Z).
+   (* codes: 1 = portion filter (Max, I) differs; 2 = cached ids differ from the winners so far; 3 = lower bound differs from the
+      model's (expected, got); 4 = the back-end's answer is not a top-k selection of the visible rows, newest first (harness defect) *)
+
+Definition tr_eqb (a b : tr) : bool := N.eqb (tid a) (tid b) && Z.eqb (tkey a) (tkey b).
+Definition mem (t : tr) (l : list tr) : bool := existsb (tr_eqb t) l.
+Fixpoint nodup_b (l : list tr) : bool := match l with [] => true | x :: r => negb (mem x r) && nodup_b r end.
+Fixpoint sorted_b (l : list tr) : bool :=
+  match l with [] => true | x :: r => forallb (fun y => Z.leb (tkey y) (tkey x)) r && sorted_b r end.
+Definition topk_b (k : nat) (U R : list tr) : bool :=
+  nodup_b R && forallb (fun x => mem x U) R && Nat.eqb (List.length R) (Nat.min k (List.length U))
+  && forallb (fun x => mem x R || forallb (fun y => Z.leb (tkey x) (tkey y)) R) U.
+Fixpoint list_N_eqb (a b : list N) : bool :=
+  match a, b with [] , [] => true | x :: a', y :: b' => N.eqb x y && list_N_eqb a' b' | _, _ => false end.
+
+Section RUN.
+  Variable all : list tr.
+  Variable part : N -> N.
+  Variable k : nat.
+  Variable portions : N.
+
+  Fixpoint resolve (ids : list N) : option (list tr) :=
+    match ids with
+    | [] => Some []
+    | i :: r => match find (fun t => N.eqb (tid t) i) all, resolve r with Some t, Some l => Some (t :: l) | _, _ => None end
+    end.
+
+  Fixpoint run_model (i : N) (S : list tr) (from : Z) (steps : list step) : run_result :=
+    match steps with
+    | [] => RunOk i S from
+    | s :: rest =>
+        if negb (N.eqb (st_max s) portions && N.eqb (st_i s) i) then RunBad i 1 (Z.of_N i) (Z.of_N (st_i s))
+        else if negb (list_N_eqb (st_cached s) (map tid S)) then RunBad i 2 (Z.of_nat (List.length S)) (Z.of_nat (List.length (st_cached s)))
+        else if negb (Z.eqb (st_from s) from) then RunBad i 3 from (st_from s)
+        else match resolve (st_rows s) with
+             | Some R =>
+                 if topk_b k (V all part i S from) R && sorted_b R
+                 then run_model (i + 1)%N R (next_from k R from) rest
+                 else RunBad i 4 0 0
+             | None => RunBad i 4 1 1
+             end
+    end.
+End RUN.
+
+(* a case of the loop tie *)
+Record loop_case := {
+  lc_id : Z; lc_k : nat; lc_portions : N; lc_from0 : Z;
+  lc_all : list tr;                 (* the matching traces below the upper bound of the window *)
+  lc_parts : list (N * N);          (* trace id -> hash class *)
+  lc_steps : list step;
+  lc_final : list N }.              (* the ids of the answer Process returned *)
+Definition part_of (ps : list (N * N)) (id : N) : N :=
+  match find (fun p => N.eqb (fst p) id) ps with Some p => snd p | None => 0%N end.
+Fixpoint ids_distinct (l : list N) : bool := match l with [] => true | x :: r => negb (existsb (N.eqb x) r) && ids_distinct r end.
+
+(* 0 = the run is a path of `reach`, the answer is the last statement's answer and a top-k selection of all matching traces;
+   otherwise (code, step, expected, got): 1-4 as above; 5 = the answer differs from the last statement's rows; 6 = the answer is not a
+   top-`limit` selection of the matching traces of the window (the property itself, judged on the observed answer);
+   7 = the case is outside the theorem's hypotheses (ids not distinct / limit 0 / number of statements <> portions) *)
+Definition loop_code (c : loop_case) : Z * N * Z * Z :=
+  if negb (ids_distinct (map tid (lc_all c)) && Nat.ltb 0 (lc_k c) && N.eqb (N.of_nat (List.length (lc_steps c))) (lc_portions c)) then (7, 0%N, 0, 0)%Z
+  else
+  let part := part_of (lc_parts c) in
+  match run_model (lc_all c) part (lc_k c) (lc_portions c) 0%N [] (lc_from0 c) (lc_steps c) with
+  | RunBad st code e g => (code, st, e, g)
+  | RunOk n W f =>
+      if negb (list_N_eqb (lc_final c) (map tid W)) then (5, n, 0, 0)%Z
+      else if negb (topk_b (lc_k c) (U (lc_all c) part (lc_from0 c) n) W) then (6, n, 0, 0)%Z
+      else (0, n, 0, 0)%Z
+  end.
+Definition loop_codes (l : list loop_case) : list (Z * (Z * N * Z * Z)) :=
+  flat_map (fun c => let r := loop_code c in match r with (0%Z, _, _, _) => [] | _ => [(lc_id c, r)] end) l.
